@@ -161,6 +161,14 @@ def render_ff(ff):
             for a, b in l['edges']:
                 out.append(f'{a[0]}{a[1]} {b[0]}{b[1]}')
         out.append('')
+    # links that address atoms of the finished molecule by (1-based) atom id
+    for l in ff.get('explicit_links', []):
+        out += ['[ link ]', '[ molmeta ]', 'by_atom_id true']
+        for sec, rows in l.items():
+            out.append(f'[ {sec} ]')
+            for r in rows:
+                out.append(' '.join(str(a) for a in r['atoms']) + ' ' + ' '.join(r['params']))
+        out.append('')
     return '\n'.join(out) + '\n'
 
 
